@@ -41,6 +41,24 @@ def _link_line(ctx, subdir, target):
     return m.group(1)
 
 
+def lib_dirs_of(ctx, subdir, linkset):
+    """Directories (relative to the tree root, deduplicated, link-line order) of the libtool archives the
+    link set uses, except <subdir> itself."""
+    toks = shlex.split(_link_line(ctx, subdir, linkset))
+    base = os.path.join(ctx.tree, subdir)
+    out = []
+    for t in toks:
+        if not t.endswith('.la'):
+            continue
+        d = os.path.dirname(os.path.normpath(os.path.join(base, t)))
+        rel = os.path.relpath(d, ctx.tree)
+        if rel.startswith('..') or rel == os.path.normpath(subdir) or rel in out:
+            continue
+        if os.path.exists(os.path.join(d, 'Makefile')):
+            out.append(rel)
+    return out
+
+
 def build(ctx, linkset, sources, name=None, subdir='src', drop_objects=(), extra_cxx=(), extra_ld=(),
           ubsan=False, tree_sources=(), tree_flags=()):
     """Compile harness `sources` (paths relative to /verif/checks or absolute) and link them in place of
@@ -49,6 +67,13 @@ def build(ctx, linkset, sources, name=None, subdir='src', drop_objects=(), extra
     drop_objects: additional object names (regex) to remove from the link line.
     Returns the executable path."""
     ctx.vbuild('%s:%s' % (subdir, linkset))
+    # <subdir>/Makefile knows the convenience libraries of other directories (http/libhttp.la,
+    # ../lib/libmiscutil.la, ...) only as files, so a changed source below them would be synced but not
+    # recompiled: run the default target of every directory that contributes a .la to the link line
+    # (recursing into its SUBDIRS, e.g. http/one), then re-make the link set itself.
+    libdirs = lib_dirs_of(ctx, subdir, linkset)
+    if libdirs:
+        ctx.vbuild(*(['%s:all' % d for d in libdirs] + ['%s:%s' % (subdir, linkset)]))
     name = name or ctx.pid
     exe = os.path.join(ctx.objdir, name)
     d = os.path.join(ctx.tree, subdir)
